@@ -10,8 +10,8 @@ go build ./... || { echo "BUILD-FAIL"; git checkout -q -- .; exit 1; }
 fails=$(go test -vet=off -count=1 -timeout 25m . 2>&1 | grep -E "^--- FAIL" | grep -v TestVerifyHostname | head -5)
 [ -n "$fails" ] && { echo "SUITE-CHANGED: $fails"; }
 cp $MD/demo_test.go zz_demo_test.go
-go test -vet=off -count=1 -timeout 10m -run "$RX" "$@" . > /tmp/confirm.with.log 2>&1; with=$?
+go test -vet=off -count=1 -timeout 10m -run "$RX" "$@" . > /tmp/confirm.$$.with.log 2>&1; with=$?
 git checkout -q -- .
-go test -vet=off -count=1 -timeout 10m -run "$RX" "$@" . > /tmp/confirm.without.log 2>&1; without=$?
+go test -vet=off -count=1 -timeout 10m -run "$RX" "$@" . > /tmp/confirm.$$.without.log 2>&1; without=$?
 rm -f zz_demo_test.go
 echo "suite_ok=$([ -z "$fails" ] && echo yes || echo no) demo_with_change_rc=$with demo_without_change_rc=$without"
